@@ -245,3 +245,31 @@ def term_width(bf, t):
     if t[0] == 'call' and t[1].endswith('from_le_bytes') and peel(t[2][0])[0] == 'array':
         return 8 * len(peel(t[2][0])[1])
     return None
+
+
+def subst_params(t, args):
+    if isinstance(t, tuple):
+        if len(t) == 2 and t[0] == 'param' and isinstance(t[1], int) and 1 <= t[1] <= len(args):
+            return args[t[1] - 1]
+        r = tuple(subst_params(x, args) for x in t)
+        if len(r) == 2 and r[0] == 'deref' and isinstance(r[1], tuple) and len(r[1]) == 2 and r[1][0] == 'ref':
+            return r[1][1]
+        return r
+    return t
+
+
+def expand_calls(pf, t, depth=2):
+    """replace calls to small single-expression workspace helpers by their return term (arguments substituted), so that
+    a value computed in an extracted helper is seen like the inline expression"""
+    from .flow import term_of_local
+    if not isinstance(t, tuple) or depth < 0:
+        return t
+    t = tuple(expand_calls(pf, x, depth) if isinstance(x, tuple) else x for x in t)
+    if t and t[0] == 'call' and len(t) >= 3 and isinstance(t[1], str) and t[1].split('::')[0] in ('lorawan', 'lorawan_device', 'lora_phy', 'lora_modulation'):
+        bl = pf.prog.by_short.get(t[1]) or []
+        if len(bl) == 1 and not bl[0].coroutine and len([b for b in bl[0].blocks if not b.cleanup]) <= 12:
+            bf2 = pf.bf(bl[0])
+            rt = term_of_local(bf2, 0)
+            if rt[0] != 'phi' and not term_contains(rt, lambda y: isinstance(y, tuple) and len(y) == 2 and y[0] == 'phi'):
+                return expand_calls(pf, subst_params(rt, list(t[2])), depth - 1)
+    return t
